@@ -104,6 +104,16 @@ func (g *IOGen) cond() *awk.Node {
 	}
 }
 
+// patCond draws a rule pattern; one in four calls a helper function first, so that next / nextfile /
+// exit / getline can happen inside a function called from a pattern (also the patterns of a range).
+func (g *IOGen) patCond() *awk.Node {
+	if g.n(0, 3, "patcall") == 0 {
+		g.Feat["call-from-pattern"]++
+		return awk.BinN(awk.UserCallN(g.pick([]string{"t0", "t1"}, "pcallee"), awk.StrN("P")), "||", g.cond())
+	}
+	return g.cond()
+}
+
 // action draws statements for a rule or function body. inRule: next/nextfile allowed.
 func (g *IOGen) action(tag string, depth int, inRule bool, allowCalls bool) []*awk.Node {
 	var out []*awk.Node
@@ -189,10 +199,10 @@ func (g *IOGen) Program() *awk.Program {
 		switch g.n(0, 6, "pat") {
 		case 0, 1:
 		case 2, 3:
-			a.Pattern = []*awk.Node{g.cond()}
+			a.Pattern = []*awk.Node{g.patCond()}
 		default:
 			g.Feat["range"]++
-			a.Pattern = []*awk.Node{g.cond(), g.cond()}
+			a.Pattern = []*awk.Node{g.patCond(), g.patCond()}
 		}
 		if len(a.Pattern) > 0 && g.n(0, 5, "nobody") == 0 {
 			a.NoBody = true
